@@ -68,6 +68,89 @@ def ctor_args(cls, geo):
     return 1 if geo in ("CircularGeometry", "CulhamGeometry") else 3
 
 
+def culham_tables(ck, prog):
+    """CulhamGeometry::initializeGeometry fills ten tables of 1001 entries (Runge-Kutta sweep, normalisation passes, a trapezoid
+    sweep, a final shift).  The values are numerical; what is decided here is the *recipe* of every entry: interpreted with the
+    loop indices concrete and every double erased (calls of the class's other members return an arbitrary value), each entry's
+    history of writing statements must be the table's common history from its second write on (the first write may be an
+    initial condition), every entry is written, nothing is read before it is written and nothing is accessed out of range.
+    A pass whose bound is off by one leaves one entry with a shorter history (seed C19-5: the last entry of E' and T' skipped
+    by a fused normalisation loop)."""
+    import re as _re
+    from gmg.conc import Arr, ConcDomain, TOP
+    from gmg.interp import Interp
+    ck.rule("R-C19-6", "Culham tables: every entry has the table's common recipe (same writing statements from the second write on), is written before it is read, in range", floor=8)
+    fn = prog.fn("CulhamGeometry::initializeGeometry")
+    ck.analysed(fn)
+
+    class TableDomain(ConcDomain):
+        def __init__(self, prog_):
+            ConcDomain.__init__(self, prog_)
+            self.hist = {}
+            self.early = []
+
+        def field_default(self, t, name):
+            m = _re.match(r"^(const\s+)?std::array<\s*double\s*,\s*(\d+)\s*>$", t.strip())
+            if m:
+                return Arr(name, int(m.group(2)))
+            return ConcDomain.field_default(self, t, name)
+
+        def on_write(self, arr, idx, site):
+            ConcDomain.on_write(self, arr, idx, site)
+            self.hist.setdefault(arr.name, {}).setdefault(idx, []).append(site)
+
+        def on_read(self, arr, idx, site):
+            ConcDomain.on_read(self, arr, idx, site)
+            if isinstance(idx, int) and arr.length and 0 <= idx < arr.length and idx not in self.hist.get(arr.name, {}):
+                self.early.append((arr.name, idx, site))
+
+        def call(self, e, fr):
+            cal = e.get("callee") or ""
+            if cal.startswith("CulhamGeometry::") and cal != "CulhamGeometry::initializeGeometry" and e.get("this") is not None and e["this"].get("k") == "This":
+                for a in e["args"]:
+                    self.interp.rvalue(a, fr)
+                return TOP          # the profile functions' values are numerical: not examined here
+            return ConcDomain.call(self, e, fr)
+
+    dom = TableDomain(prog)
+    it = Interp(prog, dom, loop_limit=5000) if "loop_limit" in Interp.__init__.__code__.co_varnames else Interp(prog, dom)
+    obj = dom.new_object("CulhamGeometry", None, None)
+    it.call_function(fn, obj, [])
+    site0 = ir.locstr(fn)
+    tables = sorted(n for n, c in obj.f.items() if isinstance(c.get(), Arr) and (c.get().length or 0) > 100)
+    if len(tables) < 8:
+        raise ir.AnalysisBroken("only %d tables found in CulhamGeometry (10 confirmed by hand)" % len(tables))
+    for name in tables:
+        n = obj.f[name].get().length
+        ck.instance("R-C19-6", name)
+        h = dom.hist.get(name, {})
+        probs = []
+        missing = [i for i in range(n) if i not in h]
+        if missing and len(missing) < n:
+            probs.append("entry %d of %d is never written" % (missing[0], n))
+        if h:
+            from collections import Counter
+            common = Counter(tuple(v) for v in h.values()).most_common(1)[0][0]
+            for i in sorted(h):
+                v = tuple(h[i])
+                if len(v) != len(common) or v[1:] != common[1:]:
+                    lack = [x for x in common[1:] if x not in v]
+                    probs.append("entry %d is written by %s, the other entries by %s%s" % (i, list(v), list(common), ("; it misses the pass at %s" % lack[0]) if lack else ""))
+                    break
+        early = [x for x in dom.early if x[0] == name]
+        if early:
+            probs.append("entry %d is read at %s before anything wrote it" % (early[0][1], early[0][2]))
+        oob = [o for o in dom.oob if o[0] == name]
+        if oob:
+            probs.append("out-of-range access %s[%s] at %s" % (name, oob[0][1], oob[0][3]))
+        if not h and not missing:
+            probs = []
+        if probs:
+            ck.violation("R-C19-6", "culham-table:%s" % name, site0, "CulhamGeometry::%s (%d entries): %s" % (name, n, "; ".join(probs)))
+        else:
+            ck.ok("R-C19-6", name, sample={"table": name, "entries": n, "recipe": list(Counter(tuple(v) for v in h.values()).most_common(1)[0][0]) if h else "not written by initializeGeometry"} if name == "E_prime_array" else None)
+
+
 def main(tier):
     ck = report.Check("C19", tier, level="proof", technique="CAS: closed forms extracted from the source (sympy differentiation/simplification; 50-digit evaluation where simplification does not terminate); abstract interpretation of selectTestCase")
     ck.rule("R-C19-1", "Jacobian functions == partial derivatives of the mapping (Circular, Shafranov, Czarny)", floor=12)
@@ -288,6 +371,8 @@ def main(tier):
             ck.violation("R-C19-5", c, ir.locstr(prog.fn(c + "::rhs_f")), signature="; ".join(sig), msg=
                          "%s::rhs_f deviates from -div(alpha grad u)+beta u by a relative %s at (r,theta)=(%s,%s) with constructor arguments (Rmax, 2nd, 3rd)=(%s,%s,%s): rhs_f=%s, L(u)=%s" % (
                              c, mp.nstr(worst, 5), mp.nstr(wpt[0], 5), mp.nstr(wpt[1], 5), mp.nstr(wpt[4]["Rmax"], 4), mp.nstr(wpt[4]["p_kappa_eps"], 4), mp.nstr(wpt[4]["p_delta_e"], 4), mp.nstr(wpt[2], 12), mp.nstr(wpt[3], 12)))
+    # ---------------- R-C19-6: Culham's tabulated profiles are built uniformly
+    culham_tables(ck, prog)
     ck.extra["undecided_is_broken"] = False
     ck.extra["source_terms_total"] = len(src_classes)
     ck.extra["source_terms_checked"] = len(pick)
